@@ -45,8 +45,8 @@ func (t *transport) isConnLoad(x *core.Term) bool {
 // c.conn, or c.conn handed as a writer to external code.  Indirect: a call of
 // an in-package helper known to write without taking the lock itself.
 func (t *transport) writeEvent(ev *core.Event) (direct, is bool) {
-	if ev.Kind != core.EvCall {
-		return false, false
+	if ev.Kind != core.EvCall || ev.Inlined {
+		return false, false // an inlined helper is judged by the writes inside it
 	}
 	if ev.Static == nil && ev.Method != nil && t.isConnLoad(ev.Recv) {
 		switch ev.Method.Name() {
